@@ -7,6 +7,11 @@ Shape B: full products of small option sets executed on the real classes.
       final - initial).
   part 'bep':   8 descriptors x slope x intercept x reaction body x T x class: barrier identities.
   part 'A':     pre-exponential factors: entropy route, no-TS limit, site-density scaling, operation.
+  part 'shared': objects shared between the 2-3 reactions of a small mechanism (one BEP relation as the transition
+      state of all of them / one BEP each with other parameters / copies of the first BEP edited after creation; one
+      explicit transition-state species; reactant and product species objects; catalyst sites and interface
+      phases): every probe on the reactions in every order, then the shared objects edited in place and evaluated
+      again; every single result against the closed form for that reaction alone.
 """
 import itertools
 import math
@@ -21,13 +26,23 @@ RULE = ('three full products: (clamp) class x species kind x landscape (H_R,H_TS
         'S_TS,S_P in {0,5,-5} R) x TS {none, explicit, BEP(slope,intercept)} x T x P, both directions, four getters; '
         '(bep) descriptor x slope x intercept x body x T x class, both directions; (A) class x reactant pattern '
         '(0-3 surface reactants on 1-2 sites, bulk species, gas partner) x site densities x operation x TS x '
-        'entropy option x output units x lambda.  A case is non-trivial when the clamp is decided by a term '
-        'other than the plain barrier, the BEP descriptor is not delta_H, or the reaction has >= 2 surface reactants')
+        'entropy option x output units x lambda; (shared) class x group of 2-3 reaction bodies built on ONE set of '
+        'species objects x transition state {one BEP shared, one BEP each, deepcopy / to_dict-from_dict copies of the '
+        'first BEP edited after creation, one explicit species shared, none} x descriptor x (slope, intercept, keyword '
+        'variant: T / T and P / integer-typed numbers) - a history per case: every probe on the reactions in every '
+        'order (getter-major and reaction-major), BEP parameters and descriptor edited in place, a shared species '
+        'edited in place; and get_A of 2-3 reactions on one set of species / site / phase objects in every order x '
+        'every operation.  A case is non-trivial when the clamp is decided by a term '
+        'other than the plain barrier, the BEP descriptor is not delta_H, the reaction has >= 2 surface reactants, or '
+        'objects are shared between reactions')
 ASSUMPTIONS = ['H and S of landscape species are set exactly (NASA polynomials with Cp = 0, or ConstantMode); the '
                'oracle reads them back through the species getters, never through the reaction',
                'surface reactants carry integer coefficients (the statement counts surface reactants)',
                'kB, h, Na and R are the library\'s own constants (their accuracy is C12\'s business)',
-               'ChemkinReaction needs species with a phase string: landscapes for it use Nasa species']
+               'ChemkinReaction needs species with a phase string: landscapes for it use Nasa species',
+               'part shared: conditions are given as plain keywords (T, P), not through per-species <name>_kwargs '
+               'dictionaries (their routing is C08\'s business); a BEP transition state carries the entropy of the '
+               'reactants (documented default entropy_state)']
 EXPLANATION = 'full-product enumeration of small option sets on the real classes; closed-form oracles from species getters'
 
 EV = [-1.0, -0.5, 0.0, 0.5, 1.0]
@@ -624,20 +639,489 @@ def _check_A(case, ctx):
                   expo * math.log(lam), dict(sig0, law='scaling'), case, rtol=1e-10, atol=1e-9, scale=10.0)
 
 
+# ================================================================== part 'shared'
+# Objects shared between several reactions of one mechanism: one BEP relation that is the transition state of a
+# whole reaction family, one species object that takes part in 2-3 reactions, one catalyst site / interface phase
+# under several reactions.  A case carries its whole history: build the objects, evaluate every probe on the
+# reactions in every order, edit the shared objects in place, evaluate again.  The oracle of every single result is
+# the closed form for THAT reaction alone, computed beforehand from the species getters only (the oracle never
+# touches a BEP or a reaction, so it cannot refresh whatever they remember).
+SH_GROUPS_SM = [[(0, 0), (1, 0)], [(2, 0), (3, 0)], [(0, 0), (0, 1)], [(0, 0), (1, 0), (2, 0)], [(1, 1), (3, 0), (2, 1)]]
+SH_GROUPS_EMP = [[(0, 0), (1, 0)], [(0, 0), (1, 1), (0, 1)], [(1, 0), (2, 0)]]        # the first two: ChemkinReaction too
+SH_MODES = ['bep-shared', 'bep-own', 'bep-copy', 'bep-dict']
+SH_PARAMS = [(0.3, 15.0, 'T'), (0.5, 60.0, 'TP'), (1, 15, 'int'), (0.0, 0.0, 'T')]     # slope, intercept, keyword variant
+SH_KWVARS = ['T', 'TP', 'int']
+SH_A_GROUPS = [[1, 3, 4], [2, 8, 6], [0, 7, 10], [3, 9], [5, 2]]                      # indices into PATTERNS
+PLANNED_TAGS += (['shared:' + m for m in SH_MODES] + ['shared:explicit', 'shared:none', 'shared:K=2', 'shared:K=3',
+                 'shared:kw:T', 'shared:kw:TP', 'shared:kw:int', 'shared:getter-major', 'shared:reaction-major',
+                 'shared:edit-bep', 'shared:edit-species', 'shared:species-in-2+', 'shared:same-body-both-ways',
+                 'shared:A', 'shared:A:site-in-2+'] + ['shared:cls:' + c for c in
+                                                       ('Reaction', 'ChemkinReaction', 'SurfaceReaction')])
+
+
+def _sh_body(fam, b, swap):
+    body = (BODIES_SM if fam == 'sm' else BODIES_EMP)[b]
+    return (body[1], body[0]) if swap else body
+
+
+def _shared_cases(tier):
+    out = []
+    if tier == 'thorough':
+        params = [(m, b, v) for m in (0.0, 0.3, 0.5, 1.0, 1) for b in (0.0, 60.0, 15) for v in SH_KWVARS
+                  if (v == 'int') == (isinstance(m, int) and isinstance(b, int))]
+    else:
+        params = SH_PARAMS
+    n = 0
+    for fam, groups in (('sm', SH_GROUPS_SM), ('emp', SH_GROUPS_EMP)):
+        for gi, group in enumerate(groups):
+            classes = ['Reaction', 'SurfaceReaction']
+            if fam == 'emp' and gi < 2:
+                classes.append('ChemkinReaction')
+            for cls in classes:
+                for mode in SH_MODES:
+                    for desc in DESCRIPTORS:
+                        if fam == 'emp' and not desc.endswith('_H'):
+                            continue
+                        for (m, b, v) in params:
+                            n += 1
+                            out.append(dict(part='shared', sub='ts', cls=cls, fam=fam, group=group, mode=mode, desc=desc,
+                                            slope=m, intercept=b, kwvar=v, T=TEMPS[n % 2]))
+                # explicit transition-state species / no transition state, shared reactant and product objects
+                for mode in ('explicit', 'none'):
+                    if mode == 'none' and cls == 'Reaction':
+                        continue
+                    for v in SH_KWVARS:
+                        for T in TEMPS:
+                            out.append(dict(part='shared', sub='ts', cls=cls, fam=fam, group=group, mode=mode,
+                                            desc=None, slope=None, intercept=None, kwvar=v, T=T))
+    # pre-exponential factors of reactions that share sites and species
+    for cls in ('ChemkinReaction', 'SurfaceReaction'):
+        for gi, group in enumerate(SH_A_GROUPS):
+            for si, sden in enumerate([[SDENS[0], SDENS[2]], [SDENS[1], SDENS[0]]]):
+                for ts in (False, True):
+                    for rot in range(len(OPS)):
+                        units = [None] if cls == 'ChemkinReaction' else (
+                            A_UNITS if tier == 'thorough' else [A_UNITS[(gi + si + rot) % len(A_UNITS)],
+                                                                A_UNITS[(gi + si + rot + 2) % len(A_UNITS)]])
+                        for u in units:
+                            out.append(dict(part='shared', sub='A', cls=cls, group=group, sden=sden, ts=ts, rot=rot,
+                                            units=u, T=TEMPS[(gi + rot) % 2], dS=5.0 if ts else 0.0))
+    return out
+
+
+def _sh_num(x, intvar):
+    """integer-typed number on the integer variant whenever the value is an integer"""
+    return int(x) if (intvar and float(x).is_integer()) else x
+
+
+def _sh_edit_species(sp):
+    """Edit a species in place so that its enthalpy (and energy) moves; returns what was edited."""
+    cls = type(sp).__name__
+    if cls == 'StatMech':
+        em = sp.elec_model
+        if hasattr(em, 'potentialenergy'):
+            em.potentialenergy = em.potentialenergy + 0.125
+        else:                                           # ConstantMode: independent constants
+            for a in ('U', 'H', 'F', 'G'):
+                setattr(em, a, getattr(em, a) + 0.125)
+        return 'statmech'
+    if cls == 'Nasa':
+        lo, hi = np.array(sp.a_low, dtype=float), np.array(sp.a_high, dtype=float)
+        lo[5] += 1500.0
+        hi[5] += 1500.0
+        sp.a_low, sp.a_high = lo, hi
+        return 'nasa'
+    if cls == 'Shomate':
+        a = np.array(sp.a, dtype=float)
+        a[5] += 12.5
+        sp.a = a
+        return 'shomate'
+    if cls == 'Nasa9':
+        for n9 in sp.nasas:
+            a = np.array(n9.a, dtype=float)
+            a[7] += 1500.0
+            n9.a = a
+        return 'nasa9'
+    raise ValueError(cls)
+
+
+def _sh_expect(rs, ps, ts, par, kw, sm_all):
+    """Closed-form values of one reaction, from species getters only.  par = (slope, intercept, descriptor) or None."""
+    from pmutt import constants as c
+    T = float(kw['T'])
+    RT = c.R('kcal/mol/K') * T
+
+    def state(side, quant):
+        t = [(float(nu), R.species_value(sp, quant, kw)) for sp, nu in side]
+        return R.combine(t, quant), R.magnitude(t)
+    hr, m1 = state(rs, 'HoRT')
+    hp, m2 = state(ps, 'HoRT')
+    gr, m3 = state(rs, 'GoRT')
+    gp, m4 = state(ps, 'GoRT')
+    mag = m1 + m2 + m3 + m4 + 1.0
+    e = {}
+    if par is not None:
+        slope, intercept, desc = float(par[0]), float(par[1]), par[2]
+        q = 'HoRT' if desc.endswith('_H') else 'EoRT'
+        xr, m5 = state(rs, q)
+        xp, m6 = state(ps, q)
+        mag += m5 + m6 + intercept / RT
+        kind = desc.rsplit('_', 1)[0]
+        d = {'delta': xp - xr, 'rev_delta': xr - xp, 'reactants': xr, 'products': xp}[kind] * RT
+        own = slope * d + intercept                      # barrier in the descriptor's own direction, kcal/mol
+        if kind == 'rev_delta':
+            ea_f, ea_r = own + (xp - xr) * RT, own
+        elif kind == 'delta':
+            ea_f, ea_r = own, own - (xp - xr) * RT
+        else:
+            ea_f, ea_r = own, None                       # the statement says nothing about the reverse relation here
+        e['Ea_f'], e['Ea_r'] = ea_f, ea_r
+        e['EoRT_f'] = ea_f / RT
+        # H and U offsets use the forward barrier; the relation carries no entropy of its own: G_TS = H_TS - S_reactants
+        # (documented).  For species with G = H - T S this is the forward barrier again; the pool's ConstantMode
+        # species has independent constants, hence the explicit form.
+        sr, m9 = state(rs, 'SoR')
+        mag += m9
+        ts_h = ts_u = ea_f / RT
+        ts_g = ea_f / RT + hr - sr - gr
+    elif ts is not None:
+        ht, m7 = state(ts, 'HoRT')
+        gt, m8 = state(ts, 'GoRT')
+        mag += m7 + m8
+        ts_h, ts_g = ht - hr, gt - gr
+        ts_u = (state(ts, 'UoRT')[0] - state(rs, 'UoRT')[0]) if sm_all else None
+    else:
+        ts_h = ts_g = ts_u = None
+    if ts_h is not None:
+        e['dH_f'], e['dH_r'] = ts_h, ts_h - (hp - hr)
+        if sm_all and ts_u is not None:
+            e['dU_f'] = ts_u
+    cand_h = [0.0, hp - hr] + ([ts_h] if ts_h is not None else [])
+    cand_hr = [0.0, hr - hp] + ([ts_h - (hp - hr)] if ts_h is not None else [])
+    cand_g = [0.0, gp - gr] + ([ts_g] if ts_g is not None else [])
+    cand_gr = [0.0, gr - gp] + ([ts_g - (gp - gr)] if ts_g is not None else [])
+    e['HoRT_act_f'], e['HoRT_act_r'] = max(cand_h), max(cand_hr)
+    e['GoRT_act_f'], e['GoRT_act_r'] = max(cand_g), max(cand_gr)
+    e['H_act_f'], e['G_act_r'] = e['HoRT_act_f'] * RT, e['GoRT_act_r'] * RT
+    return e, mag, RT
+
+
+# probe name -> (key of the expected value, energy units?, needs a BEP, clamp getter?, call)
+def _sh_probes(cls, has_bep, has_ts, sm_all):
+    pr = []
+    if has_bep:
+        pr += [('BEP.get_E_act', 'Ea_f', True, lambda r, b, k: b.get_E_act(units='kcal/mol', reaction=r, **k)),
+               ('BEP.get_E_act(rev)', 'Ea_r', True,
+                lambda r, b, k: b.get_E_act(units='kcal/mol', reaction=r, rev=True, **k)),
+               ('BEP.get_EoRT_act', 'EoRT_f', False, lambda r, b, k: b.get_EoRT_act(reaction=r, rev=False, **k))]
+    if has_ts:
+        pr += [('get_delta_HoRT(act)', 'dH_f', False, lambda r, b, k: r.get_delta_HoRT(act=True, **k)),
+               ('get_delta_HoRT(act,rev)', 'dH_r', False, lambda r, b, k: r.get_delta_HoRT(rev=True, act=True, **k))]
+        if sm_all:
+            pr.append(('get_delta_UoRT(act)', 'dU_f', False, lambda r, b, k: r.get_delta_UoRT(act=True, **k)))
+    if cls != 'Reaction':
+        kd = lambda k: {a: v for a, v in k.items() if a != 'T'}                    # noqa
+        pr += [('get_HoRT_act', 'HoRT_act_f', False, lambda r, b, k: r.get_HoRT_act(**k)),
+               ('get_HoRT_act(rev)', 'HoRT_act_r', False, lambda r, b, k: r.get_HoRT_act(rev=True, **k)),
+               ('get_GoRT_act', 'GoRT_act_f', False, lambda r, b, k: r.get_GoRT_act(rev=False, **k)),
+               ('get_GoRT_act(rev)', 'GoRT_act_r', False, lambda r, b, k: r.get_GoRT_act(rev=True, **k)),
+               ('get_H_act', 'H_act_f', True, lambda r, b, k: r.get_H_act(units='kcal/mol', T=k['T'], **kd(k))),
+               ('get_G_act(rev)', 'G_act_r', True,
+                lambda r, b, k: r.get_G_act(units='kcal/mol', T=k['T'], rev=True, **kd(k)))]
+    return pr
+
+
+def _same(a, b):
+    """Structural equality that also compares the types of numbers and the identity of objects."""
+    if isinstance(a, dict) and isinstance(b, dict):
+        return list(a) == list(b) and all(_same(a[k], b[k]) for k in a)
+    if isinstance(a, (list, tuple)) and isinstance(b, (list, tuple)):
+        return len(a) == len(b) and all(_same(x, y) for x, y in zip(a, b))
+    if isinstance(a, (int, float, str, bool, type(None))):
+        return type(a) is type(b) and a == b
+    return a is b
+
+
+def _check_shared(case, ctx):
+    import copy
+    if case['sub'] == 'A':
+        return _check_shared_A(case, ctx)
+    cls, mode, fam = case['cls'], case['mode'], case['fam']
+    intvar = case['kwvar'] == 'int'
+    T = case['T']
+    kwf = {'T': float(T)}                               # the oracle's conditions: plain floats
+    kwc = {'T': _sh_num(T, intvar)}                     # what the implementation is called with
+    if case['kwvar'] == 'TP':
+        kwf['P'] = kwc['P'] = 0.2
+    ctx.tag('shared:kw:' + case['kwvar'])
+    ctx.tag('shared:cls:' + cls)
+    ctx.tag('shared:' + mode)
+    ctx.nontrivial(case)
+    objs = {}
+
+    def get(k):
+        if k not in objs:
+            objs[k] = R.build_species(k)
+        return objs[k]
+    bodies = [_sh_body(fam, b, sw) for b, sw in case['group']]
+    K = len(bodies)
+    ctx.tag('shared:K=%d' % K)
+    if len(set(b for b, _ in case['group'])) < K:
+        ctx.tag('shared:same-body-both-ways')
+    keys = [k for rs, ps in bodies for k, _ in rs + ps]
+    if len(set(keys)) < len(keys):
+        ctx.tag('shared:species-in-2+')
+    sm_all = all(k in R.STATMECH_KEYS for k in keys)
+    sides = [([(get(k), _sh_num(nu, intvar)) for k, nu in rs], [(get(k), _sh_num(nu, intvar)) for k, nu in ps])
+             for rs, ps in bodies]
+    has_bep = mode.startswith('bep')
+    sig0 = dict(part='shared', cls=cls, mode=mode)
+    if has_bep:
+        sig0['descriptor'] = case['desc']
+
+    def probe(i, name, key, energy, fn, phase, rxns, beps, exp):
+        e, mag, RT = exp[i]
+        if key not in e:
+            return
+        sig = dict(sig0, probe=name, phase=phase)
+        try:
+            v = _f(_call(ctx, sig, case, fn, rxns[i], beps[i], dict(kwc)))
+        except _Failed:
+            return
+        if e[key] is None:
+            return                                      # evaluated as part of the history, no verdict on its value
+        f = RT if energy else 1.0
+        ctx.close('result for a reaction that shares objects with other reactions = closed form for that reaction alone',
+                  v, e[key], sig, case, rtol=1e-10, atol=1e-10 * f, scale=mag * f)
+
+    # ---- build: reactions (and their transition states) one after the other, as a mechanism is written
+    beps, rxns, held = [], [], []
+    par = []
+    ts_list, ts_nu = None, None
+    tss = []
+    for i, (rs, ps) in enumerate(sides):
+        kw = dict(reactants=[s_ for s_, _ in rs], reactants_stoich=[n_ for _, n_ in rs],
+                  products=[s_ for s_, _ in ps], products_stoich=[n_ for _, n_ in ps])
+        if has_bep:
+            m_i, b_i = case['slope'], case['intercept']
+            if mode == 'bep-shared':
+                if i == 0:
+                    beps.append(_bep(cls, m_i, b_i, case['desc']))
+                    ts_list, ts_nu = [beps[0]], [_sh_num(1.0, intvar)]      # the same list objects for every reaction
+                else:
+                    beps.append(beps[0])
+            else:
+                m_i, b_i = (m_i + 0.125 * i, b_i + 2.5 * i) if i else (m_i, b_i)
+                if mode == 'bep-own' or i == 0:
+                    beps.append(_bep(cls, m_i, b_i, case['desc']))          # same name, other parameters
+                else:
+                    # a copy of the first relation (which has been evaluated already), edited after creation
+                    b0 = beps[0]
+                    nb = copy.deepcopy(b0) if mode == 'bep-copy' else type(b0).from_dict(b0.to_dict())
+                    ctx.true('a copy of a BEP relation is another object of the same class',
+                             nb is not b0 and type(nb) is type(b0), dict(sig0, phase='copy'), case)
+                    nb.slope, nb.intercept = m_i, b_i
+                    beps.append(nb)
+                ts_list, ts_nu = [beps[i]], [_sh_num(1.0, intvar)]
+            par.append((m_i, b_i, case['desc']))
+            kw.update(transition_state=ts_list, transition_state_stoich=ts_nu)
+            tss.append(None)
+        elif mode == 'explicit':
+            tsk = 'TSM' if fam == 'sm' else 'TSN'
+            tsl = [(get(tsk), _sh_num([1.0, 0.5, 2.0][i], intvar))]          # one transition-state object, shared
+            kw.update(transition_state=[tsl[0][0]], transition_state_stoich=[tsl[0][1]])
+            beps.append(None)
+            par.append(None)
+            tss.append(tsl)
+        else:
+            beps.append(None)
+            par.append(None)
+            tss.append(None)
+        held.append((kw, copy.copy(kw), {k_: list(v_) for k_, v_ in kw.items()}))
+        rxns.append(_make(cls, keys, **kw))
+        ctx.trace()
+        if has_bep and i == 0 and mode in ('bep-copy', 'bep-dict'):
+            exp0 = [_sh_expect(sides[0][0], sides[0][1], None, par[0], kwf, sm_all)]
+            for name, key, energy, fn in _sh_probes(cls, True, True, sm_all)[:2]:
+                probe(0, name, key, energy, fn, 'before-copy', rxns, beps, exp0)
+
+    def expected():
+        return [_sh_expect(sides[i][0], sides[i][1], tss[i], par[i], kwf, sm_all) for i in range(K)]
+    exp = expected()
+    probes = _sh_probes(cls, has_bep, has_bep or mode == 'explicit', sm_all)
+    snap = [(b.slope, b.intercept, b.descriptor) if b is not None else None for b in beps]
+    perms = list(itertools.permutations(range(K)))
+    # ---- every order, getter-major: one quantity for all reactions, then the next quantity (a mechanism writer)
+    for order in perms:
+        for name, key, energy, fn in probes:
+            for i in order:
+                probe(i, name, key, energy, fn, 'getter-major', rxns, beps, exp)
+        ctx.trans(K)
+    ctx.tag('shared:getter-major')
+    # ---- reaction-major: every quantity of one reaction, then the next reaction
+    for order in (perms if ctx.tier == 'thorough' else (perms[0], perms[-1])):
+        for i in order:
+            for name, key, energy, fn in probes:
+                probe(i, name, key, energy, fn, 'reaction-major', rxns, beps, exp)
+        ctx.trans(K)
+    ctx.tag('shared:reaction-major')
+    # ---- the caller's data is left alone
+    now = [(b.slope, b.intercept, b.descriptor) if b is not None else None for b in beps]
+    ok = _same(now, snap) and all(_same(kw_, cp) and all(_same(list(kw_[k_]), ls[k_]) for k_ in ls)
+                                  for kw_, cp, ls in held)
+    ctx.true("construction and evaluation leave the caller's species / coefficient lists and the BEP parameters as "
+             'they were', ok, dict(sig0, phase='callers-data'), case, observed=repr(now)[:200], expected=repr(snap)[:200])
+    # ---- the shared objects edited in place: answers for the new content
+    if has_bep:
+        fam_d = [d_ for d_ in DESCRIPTORS if d_.endswith(case['desc'][-2:])]
+        for i, b in enumerate(beps):
+            if mode == 'bep-shared' and i:
+                par[i] = par[0]
+                continue
+            nd = fam_d[(fam_d.index(b.descriptor) + 1 + i) % len(fam_d)]
+            b.slope, b.intercept, b.descriptor = b.slope + 0.125, b.intercept + 2.5, nd
+            par[i] = (b.slope, b.intercept, nd)
+        exp = expected()
+        for order in (perms[-1],):
+            for name, key, energy, fn in probes:
+                for i in order:
+                    probe(i, name, key, energy, fn, 'edit-bep', rxns, beps, exp)
+        ctx.tag('shared:edit-bep')
+        ctx.trans(K)
+    sp0 = sides[0][0][0][0]
+    before = R.species_value(sp0, 'HoRT', kwf)
+    _sh_edit_species(sp0)
+    if not abs(R.species_value(sp0, 'HoRT', kwf) - before) > 1e-3:
+        raise RuntimeError('harness: the in-place edit did not move the species enthalpy')
+    exp = expected()
+    for name, key, energy, fn in probes:
+        for i in perms[0]:
+            probe(i, name, key, energy, fn, 'edit-species', rxns, beps, exp)
+    ctx.tag('shared:edit-species')
+    ctx.trans(K)
+
+
+def _A_build_shared(case):
+    """The group's reactions on ONE set of objects: one species per role, one site / phase object per site."""
+    cls = case['cls']
+    sa, sb = case['sden']
+    roles = {}
+    if cls == 'ChemkinReaction':
+        from pmutt.chemkin import CatSite
+        sites = {'A': CatSite(name='siteA', site_density=sa, density=21.4, bulk_specie='BULK'),
+                 'B': CatSite(name='siteB', site_density=sb, density=12.0, bulk_specie='BULK')}
+        roles['gas'] = _nasa('G0', 0.1, 3.0, phase='G')
+        roles['bulk'] = _nasa('BULK', 0.0, 0.0, phase='S', cat_site=sites['A'])
+        roles['A'] = _nasa('A0', -0.2, 1.0, phase='S', cat_site=sites['A'])
+        roles['B'] = _nasa('B0', -0.2, 1.0, phase='S', cat_site=sites['B'])
+        prod = _nasa('PR', -0.3, 2.0, phase='S', cat_site=sites['A'])
+        mk_ts = lambda n, S: _nasa(n, 0.4, S, phase='S', cat_site=sites['A'])                     # noqa
+        tss = []
+    else:
+        from pmutt.omkm.phase import InteractingInterface, StoichSolid, IdealGas
+        roles['gas'] = _nasa('G0', 0.1, 3.0, phase='G')
+        roles['bulk'] = _nasa('BULK', 0.0, 0.0, phase='S')
+        roles['A'] = _nasa('A0', -0.2, 1.0, phase='S')
+        roles['B'] = _nasa('B0', -0.2, 1.0, phase='S')
+        prod = _nasa('PR', -0.3, 2.0, phase='S')
+        tss = []
+        mk_ts = lambda n, S: tss.append(_nasa(n, 0.4, S, phase='S')) or tss[-1]                      # noqa
+    rx_kw = []
+    for j, pi in enumerate(case['group']):
+        pat = PATTERNS[pi]
+        kw = dict(reactants=[roles[r] for r, _ in pat], reactants_stoich=[nu for _, nu in pat],
+                  products=[prod], products_stoich=[1.0])
+        if case['ts']:
+            S = case['dS'] + sum(nu * (3.0 if r == 'gas' else 0.0 if r == 'bulk' else 1.0) for r, nu in pat)
+            kw.update(transition_state=[mk_ts('TS%d' % j, S)], transition_state_stoich=[1.0])
+        rx_kw.append(kw)
+    if cls != 'ChemkinReaction':
+        IdealGas(name='gasphase', species=[roles['gas']])
+        StoichSolid(name='bulkphase', species=[roles['bulk']])
+        InteractingInterface(name='ifaceA', species=[roles['A'], prod] + tss, site_density=sa)
+        InteractingInterface(name='ifaceB', species=[roles['B']], site_density=sb)
+    return [_cls(cls)(**kw) for kw in rx_kw]
+
+
+def _check_shared_A(case, ctx):
+    from pmutt import constants as c
+    kbh = c.kb('J/K') / c.h('J s')
+    cls, u, T = case['cls'], case['units'], case['T']
+    sa, sb = case['sden']
+    ctx.tag('shared:A')
+    ctx.tag('shared:cls:' + cls)
+    ctx.nontrivial(case)
+    rxns = _A_build_shared(case)
+    ctx.trace(len(rxns))
+    K = len(rxns)
+    ctx.tag('shared:K=%d' % K)
+    pats = [PATTERNS[pi] for pi in case['group']]
+    if sum(1 for p_ in pats if any(r == 'A' for r, _ in p_)) > 1:
+        ctx.tag('shared:A:site-in-2+')
+    dS = case['dS'] if case['ts'] else 0.0
+    ops = OPS[case['rot']:] + OPS[:case['rot']]
+
+    def expected(pat, op):
+        dens = []
+        for r, nu in pat:
+            if r in ('A', 'B'):
+                dens.extend([sa if r == 'A' else sb] * int(nu))
+        n_surf = sum(nu for r, nu in pat if r in ('A', 'B'))
+        if not dens:
+            return None if cls == 'SurfaceReaction' else (math.log(kbh) + dS, 40.0, n_surf)
+        eff = {'sum': math.fsum(dens), 'min': min(dens), 'max': max(dens), 'mean': math.fsum(dens) / len(dens)}[op]
+        eff *= _sden_factor(u)
+        return math.log(kbh) + dS - (n_surf - 1) * math.log(eff), 40.0 + abs(n_surf - 1) * abs(math.log(eff)), n_surf
+    for op in ops:
+        kwargs = dict(sden_operation=op, T=T)
+        if u is not None:
+            kwargs['units'] = _units_arg(u)
+        if case['ts']:
+            kwargs['use_q'] = False
+        for order in itertools.permutations(range(K)):
+            for i in order:
+                e = expected(pats[i], op)
+                sig = dict(part='shared', cls=cls, mode='A', op=op, phase='order')
+                if e is None:
+                    try:
+                        rxns[i].get_A(**kwargs)
+                    except ValueError:
+                        ctx.refuse('SurfaceReaction.get_A without any surface reactant (documented ValueError)')
+                        continue
+                    ctx.fail('SurfaceReaction.get_A without a site raises ValueError', sig, case, 'no error', 'ValueError')
+                    continue
+                try:
+                    A = _f(_call(ctx, sig, case, rxns[i].get_A, **kwargs))
+                except _Failed:
+                    continue
+                if not (A > 0 and math.isfinite(A)):
+                    ctx.fail('pre-exponential factor > 0', sig, case, A, '> 0')
+                    continue
+                ctx.close('pre-exponential factor of a reaction that shares species and sites with other reactions = '
+                          'closed form for that reaction alone', math.log(A), e[0], dict(sig, n_surf=int(e[2])), case,
+                          rtol=1e-10, atol=1e-9, scale=e[1])
+            ctx.trans(K)
+
+
 # ================================================================== driver
 def _enumerate(tier):
-    return _clamp_cases(tier) + _bep_cases(tier) + _A_cases(tier)
+    return _clamp_cases(tier) + _bep_cases(tier) + _A_cases(tier) + _shared_cases(tier)
 
 
 N_SHARDS = {'quick': 32, 'thorough': 64}
 
 
 def bounds(tier):
-    cl, be, aa = _clamp_cases(tier), _bep_cases(tier), _A_cases(tier)
+    cl, be, aa, sh = _clamp_cases(tier), _bep_cases(tier), _A_cases(tier), _shared_cases(tier)
     ev, sr, sl, ic = _lat(tier)
     return dict(H_eV=ev, S_over_R=sr, T=TEMPS, slopes=sl, intercepts_kcal=ic, descriptors=DESCRIPTORS,
                 site_densities=SDENS, operations=OPS, lambdas=LAMBDAS, A_units=A_UNITS,
                 reactant_patterns=len(PATTERNS), clamp_cases=len(cl), bep_cases=len(be), A_cases=len(aa),
+                shared_cases=len(sh), shared_modes=SH_MODES + ['explicit', 'none', 'A'],
+                shared_groups=dict(statmech=SH_GROUPS_SM, empirical=SH_GROUPS_EMP, A_patterns=SH_A_GROUPS),
+                shared_orders='every permutation of the 2-3 reactions (getter-major; reaction-major: ' +
+                ('every permutation' if tier == 'thorough' else 'first and last permutation') + ')',
+                shared_params=(SH_PARAMS if tier == 'quick' else 'slopes x intercepts x keyword variants'),
                 full_product=True)
 
 
@@ -647,6 +1131,8 @@ def shards(tier):
 
 
 def _sig(case):
+    if case['part'] == 'shared':
+        return {'part': 'shared', 'cls': case['cls'], 'mode': case.get('mode', 'A')}
     return {'part': case['part'], 'cls': case['cls']}
 
 
@@ -656,6 +1142,8 @@ def check_case(case, ctx):
             _check_clamp(case, ctx)
         elif case['part'] == 'bep':
             _check_bep(case, ctx)
+        elif case['part'] == 'shared':
+            _check_shared(case, ctx)
         else:
             _check_A(case, ctx)
     except _Refused as e:
@@ -678,9 +1166,13 @@ LEVEL_TEXT = ('Full-product enumeration, on the real ChemkinReaction / SurfaceRe
               '(a) energy landscapes with exactly set H and S x transition state none/explicit/BEP x direction for the '
               'four clamped activation getters, (b) the 8 BEP descriptors x slope x intercept x reaction bodies x '
               'direction for the barrier identities, (c) reactant patterns with 0-3 surface reactants x site densities '
-              'x operation x units x lambda for the pre-exponential factor; closed-form oracles built from the species '
-              'getters.')
+              'x operation x units x lambda for the pre-exponential factor, (d) histories on 2-3 reactions that share a '
+              'BEP relation / transition-state species / reactant and product species / sites: every probe in every '
+              'order of the reactions, in-place edits of the shared objects, each result against the closed form of '
+              'that reaction alone; closed-form oracles built from the species getters.')
 LEVEL_NOTE = ('quick: landscape lattice 5^3 x 3^2, slopes {0,.3,.5,1}, intercepts {0,15,60} kcal/mol, BEP-transition-state '
               'clamps at one temperature, unit systems as a pairwise cover; thorough: lattice 9^3 x 5^2, 6 slopes x 5 '
-              'intercepts, everything at both temperatures, all unit systems; site densities {1e-11,2.5e-9,1e-8} mol/cm2.')
+              'intercepts, everything at both temperatures, all unit systems; site densities {1e-11,2.5e-9,1e-8} mol/cm2. '
+              'Shared-object histories: 8 groups of 2-3 bodies; quick 4 (slope, intercept, keyword variant) triples and '
+              'reaction-major order for the first and last permutation only; thorough the product and every permutation.')
 TECHNIQUE = 'full-product enumeration of small option sets on the implementation, closed-form oracle'
